@@ -7,3 +7,7 @@ import Dm.Props.C10
 #print axioms Dm.Props.C10.add_enum_same_variant
 #print axioms Dm.Props.C10.add_enum_unit_variant
 #print axioms Dm.Props.C10.add_enum_different_variants
+#print axioms Dm.Props.C10.map_range_getD
+#print axioms Dm.Props.C10.eval_variant_arms_same
+#print axioms Dm.Props.C10.eval_variant_arms_unit
+#print axioms Dm.Props.C10.eval_variant_arms_diff
